@@ -43,6 +43,12 @@ class LifxLanApi(i_controller.LightApi):
         features = impl.get_product_features()
         product_name = impl.get_product_name()
         if features.get('multizone', False):
+            if not hasattr(impl, 'get_color_zones'):
+                # lifxlan got no answer when it classified this device during
+                # its scan and handed over a plain Light object.
+                raise i_controller.LightException(
+                    'Multi-zone light "{}" not identified yet.'.format(
+                        product_name))
             return lifx_lan_light.MultizoneLight(impl)
         elif impl.get_product_features().get('matrix', False):
             return lifx_lan_light.MatrixLight(impl)
